@@ -116,7 +116,7 @@ partial def parseTy (cs : List Char) : PRes Ty :=
     let rest := cs.dropWhile (fun c => c.isAlphanum)
     match String.ofList name with
     | "bool" => .ok .bool rest | "char" => .ok .char rest | "string" => .ok .string rest
-    | "unit" => .ok .unit rest | "f64" => .ok .f64 rest | "rec" => .ok .cust rest
+    | "unit" => .ok .unit rest | "f64" => .ok .f64 rest | "rec" => .ok .cust rest | "f32" => .ok .f32 rest
     | n => match IntTy.ofName? n with | some t => .ok (.int t) rest | none => .syntax
 
 def parseRanged (lo hi : Int) (cs : List Char) : PRes {x : Int // lo ≤ x ∧ x ≤ hi} :=
@@ -145,6 +145,11 @@ def parseH : (t : Ty) → List Char → PRes t.Host
     | none => .syntax
     | some r => (parseInt r).bind fun n r' =>
       if h : n.toNat < 18446744073709551616 then (if n < 0 then .range else .ok ⟨n.toNat, h⟩ r') else .range
+  | .f32, cs =>
+    match eat 'g' cs with
+    | none => .syntax
+    | some r => (parseInt r).bind fun n r' =>
+      if h : n.toNat < 4294967296 then (if n < 0 then .range else .ok ⟨n.toNat, h⟩ r') else .range
   | .cust, cs =>
     match eat 'R' cs with
     | none => .syntax
@@ -188,6 +193,7 @@ def showH : (t : Ty) → t.Host → String
   | .string, s => "s" ++ hexOf s
   | .unit, _ => "u"
   | .f64, b => s!"b{b.val}"
+  | .f32, b => s!"g{b.val}"
   | .cust, x => s!"R{x.val}"
   | .opt _, none => "n"
   | .opt t, some x => "S(" ++ showH t x ++ ")"
@@ -303,7 +309,7 @@ def harnessTypes : List String :=
    "vec(opt(i32))", "vec(opt(bool))", "pair(i32,string)", "pair(u8,bool)", "pair(i32,i32)", "vec(pair(i32,i32))", "opt(pair(i32,i32))",
    "map(string,pair(i32,i32))", "res(pair(i32,i32),string)", "pair(pair(i32,i32),vec(u8))", "pair(vec(i32),opt(u8))",
    "map(string,i32)", "map(i32,vec(u8))", "map(u64,opt(bool))", "set(i32)", "set(string)", "set(u64)",
-   "res(i32,string)", "res(vec(u8),i64)"]
+   "res(i32,string)", "res(vec(u8),i64)", "f32", "vec(f32)", "opt(f32)", "pair(f32,f64)"]
 
 def convLine (op ty rest : String) : String :=
   if !(harnessTypes.contains ty || (op == "into" && ty == "u128") ||
@@ -341,10 +347,20 @@ def splitOn1 (s : String) (c : Char) : List String := (s.splitOn (String.singlet
 
 def showAny (a : HAny) : String := showH a.1 a.2
 
-def lookupIdx (self : Bool) (arity nparams : Nat) : List Nat :=
-  match genRegIdx.find? (fun e => e.1 == self && e.2.1 == arity) with
-  | some e => e.2.2
-  | none => List.range' (if self then 1 else 0) nparams
+/-- the index list of the wrapper that `register_fn` generates for this receiver kind and arity: from the macro
+invocation lists, or (shapes the macros do not cover) from the hand-written wrappers; `none`: no such wrapper -/
+def lookupIdx (rv : Recv) (arity : Nat) : Option (List Nat) :=
+  match lookupIdx? genRegIdx (rv != .none) arity with
+  | some ix => some ix
+  | none =>
+    let key := match rv, arity with
+      | .none, 0 => "Engine:Wrapper<()>:register_fn"
+      | .ref, 1 => "Engine:MarkerWrapper1<SELF>:register_fn"
+      | .mutRef, 1 => "Engine:MarkerWrapper2<SELF>:register_fn"
+      | _, _ => ""
+    match genWrappers.find? (fun w => w.1 == key) with
+    | some w => if w.2.1 == arity then some (w.2.2.filter (fun i => i != 0 || rv == .none)) else none
+    | none => none
 
 def callLine (shape : String) (args : List String) : String :=
   let (kind, tys) :=
@@ -367,11 +383,31 @@ def callLine (shape : String) (args : List String) : String :=
       else
         let vals : List SVal := svs.filterMap (fun r => match r with | .ok v _ => some v | _ => none)
         let arity := (if rv = .none then 0 else 1) + params.length
-        let sig : Sig := { recv := rv, params := params, idxs := lookupIdx (rv != .none) arity params.length }
+        match lookupIdx rv arity with
+        | none => "unsupported"
+        | some idxs =>
+        let sig : Sig := { recv := rv, params := params, idxs := idxs }
         let (r, log) := wrapper tb sig (fun cs => ";".intercalate (cs.map showAny)) vals
         match r with
         | .ok s => "ok recv=" ++ s
         | .error e => e.show ++ " called=" ++ (if log.isEmpty then "no" else "yes")
+
+/-- `mkstruct a*`: constructor and getters of the `Rec2 { a: i32, name: String, tags: Vec<u8>, opt: Option<bool> }` of the harness -/
+def structLine (args : List String) : String :=
+  let fields : List Ty := [.int .i32, .string, .vec (.int .u8), .opt .bool]
+  let svs := args.map (fun a => full (parseSV a.toList))
+  if svs.any (fun r => match r with | .ok _ _ => false | _ => true) then "bad parse"
+  else
+    let vals : List SVal := svs.filterMap (fun r => match r with | .ok v _ => some v | _ => none)
+    match lookupIdx .none fields.length with
+    | none => "unsupported"
+    | some idxs =>
+      match structCtor tb fields idxs vals with
+      | .error e => e.show
+      | .ok s =>
+        match mapE (structGetter tb s) (List.range fields.length) with
+        | .ok vs => "ok " ++ showSV (.list vs)
+        | .error e => e.show
 
 def parseHC (h c : String) : Option (Nat × Nat) :=
   match (h.drop 1).toNat?, (c.drop 1).toNat? with
@@ -389,15 +425,60 @@ def showLOut : LOut → String
   | .err e => e.show
   | .bad w => "bad " ++ w
 
-def places : List String := ["global", "closure", "list", "vector", "mvector", "hashmap", "box", "struct"]
+/-- the step function of the model that follows `Drop for BorrowedObject` as read from gc.rs on this run -/
+def stepM (pol : Policy) (s : LState) (op : Op) : LState × LOut :=
+  if genDropGuarded then lstepR pol s op else lstep pol s op
 
-/-- copies stored in a box / mutable vector (collected heap): they cannot be dropped at a definite point -/
+def places : List String :=
+  ["global", "closure", "list", "vector", "mvector", "hashmap", "box", "struct",
+   "nested", "promise", "param", "hashset", "thread", "restargs", "cont"]
+
+/-- `slice <eng|mod> h c a*`: a host function `Fn(&mut SELF, &[isize], isize)` registered through `Engine` / through a
+`BuiltInModule`, called with the handle and the arguments `a*`.  The wrapper is the hand-written one of the
+regenerated table: arity check, then for every index it reads, in order: `args[i]` (panics out of bounds), then
+the extraction for that position (0: `as_mut_ref_from_ref`, 1: `as_ref_from_unsized` — a list —, 2: `from_steelval`). -/
+def sliceLine (pol : Policy) (s : LState) (variant : String) (h c : Nat) (args : List SVal) : LState × String :=
+  let key := (if variant == "eng" then "Engine" else "BuiltInModule") ++ ":MarkerWrapper6<(SELF,F,INNER)>:register_fn"
+  match genWrappers.find? (fun w => w.1 == key) with
+  | none => (s, "unsupported")
+  | some w =>
+    let all : List SVal := .ref :: args
+    match wrapperPre w.2.1 [] all.length with
+    | .arityErr => (s, "err:arity called=no")
+    | _ =>
+      let rec go (s : LState) (idxs : List Nat) (recv : Option String) (xs : Option String) (k : Option String) :
+          LState × String :=
+        match idxs with
+        | [] => (s, "ok recv=" ++ ";".intercalate [recv.getD "?", xs.getD "?", k.getD "?"])
+        | i :: rest =>
+          if all.length ≤ i then (s, s!"panic index out of bounds: the len is {all.length} but the index is {i}")
+          else match i with
+          | 0 =>
+            let (s', o) := stepM pol s (.get h c)
+            match o with
+            | .val v => go s' rest (some (toString v)) xs k
+            | .err e => (s', e.show ++ " called=no")
+            | o => (s', showLOut o)
+          | 1 =>
+            match all.getD 1 .void with
+            | .list vs =>
+              match mapE (from_ tb (.int .isize)) vs with
+              | .ok ys => go s rest recv (some (showH (.vec (.int .isize)) ys)) k
+              | .error e => (s, e.show ++ " called=no")
+            | _ => (s, "err:type called=no")
+          | _ =>
+            match from_ tb (.int .isize) (all.getD i .void) with
+            | .ok y => go s rest recv xs (some (showH (.int .isize) y))
+            | .error e => (s, e.show ++ " called=no")
+      go s w.2.2 none none none
+
+/-- copies stored in a box / mutable vector / parameter object (collected heap): they cannot be dropped at a definite point -/
 abbrev Sticky := List (Nat × Nat)
 
 def lendLine (pol : Policy) (s : LState) (toks : List String) : LState × String :=
   let run (op : Op) : LState × String :=
-    let (s', o) := lstep pol s op
-    (s', showLOut o ++ " | " ++ flags s')
+    let (s', o) := stepM pol s op
+    (s', showLOut o ++ " | " ++ flags s' ++ s!" span={spanStep s op}")
   let kindOf (k : String) : Option Kind := match k with | "rw" => some .rw | "ro" => some .ro | _ => none
   match toks with
   | "lend" :: ks =>
@@ -416,14 +497,25 @@ def lendLine (pol : Policy) (s : LState) (toks : List String) : LState × String
     match parseHC h c, v.toNat? with
     | some (h, c), some v => run (.set h c v)
     | _, _ => (s, "bad parse")
+  | "slice" :: variant :: h :: c :: args =>
+    match parseHC h c with
+    | some (h, c) =>
+      let svs := args.map (fun a => full (parseSV a.toList))
+      if variant != "eng" && variant != "mod" then (s, "bad parse")
+      else if svs.any (fun r => match r with | .ok _ _ => false | _ => true) then (s, "bad parse")
+      else if !((s.handles[h]?).map (fun hd => hd.copies.contains c)).getD false then (s, "bad no-copy")
+      else
+        let (s', o) := sliceLine pol s variant h c (svs.filterMap (fun r => match r with | .ok v _ => some v | _ => none))
+        (s', o ++ " | " ++ flags s')
+    | none => (s, "bad parse")
   | ["threaduse", h, c] =>
     match parseHC h c with
     | some (h, c) =>
-      let (s', o) := lstep pol s (.pinUse h c)
+      let (s', o) := stepM pol s (.pinUse h c)
       (s', (match o with | .unit => "ok entered=bool:t" | .err _ => "ok entered=bool:f" | o => showLOut o) ++ " | " ++ flags s')
     | none => (s, "bad parse")
   | ["threadjoin"] =>
-    let (s', o) := lstep pol s .unpinUse
+    let (s', o) := stepM pol s .unpinUse
     (s', (match o with | .val v => s!"ok int:{v}" | o => showLOut o) ++ " | " ++ flags s')
   | ["derive", h, c, k] =>
     match parseHC h c, kindOf k with
@@ -431,7 +523,17 @@ def lendLine (pol : Policy) (s : LState) (toks : List String) : LState × String
     | _, _ => (s, "bad parse")
   | _ => (s, "bad op")
 
-def lendLineS (pol : Policy) (st : LState × Sticky) (toks : List String) : (LState × Sticky) × String :=
+/-- With the repaired `Drop` (`lstepR`) the last drop of a handle under a live derived reference leaves the model
+state alone; the script no longer has the copy.  Such copies are kept in the sticky list as `(h + ghostMark, c)`:
+they cannot be named again and the generator does not draw them. -/
+def ghostMark : Nat := 1000000
+
+def isGhost (sticky : Sticky) (h c : String) : Bool :=
+  match (h.drop 1).toNat?, (c.drop 1).toNat? with
+  | some a, some b => sticky.contains (a + ghostMark, b)
+  | _, _ => false
+
+def lendLineS0 (pol : Policy) (st : LState × Sticky) (toks : List String) : (LState × Sticky) × String :=
   let (s, sticky) := st
   match toks with
   | ["drop", h, c] =>
@@ -444,13 +546,34 @@ def lendLineS (pol : Policy) (st : LState × Sticky) (toks : List String) : (LSt
   | ["copy", h, _, place] =>
     let (s', o) := lendLine pol s toks
     let sticky' :=
-      if (place == "box" || place == "mvector") && o.startsWith "ok c" then
+      if (place == "box" || place == "mvector" || place == "param") && o.startsWith "ok c" then
         match (h.drop 1).toNat?, (((o.splitOn " | ").headD "").drop 4).toNat? with
         | some hh, some cc => (hh, cc) :: sticky
         | _, _ => sticky
       else sticky
     ((s', sticky'), o)
   | _ => let (s', o) := lendLine pol s toks; ((s', sticky), o)
+
+def lendLineS (pol : Policy) (st : LState × Sticky) (toks : List String) : (LState × Sticky) × String :=
+  let (s, sticky) := st
+  let named : Option (String × String) := match toks with
+    | "slice" :: _ :: h :: c :: _ => some (h, c)
+    | op :: h :: c :: _ => if ["copy", "drop", "get", "getro", "set", "derive", "threaduse"].contains op then some (h, c) else none
+    | _ => none
+  match named with
+  | some (h, c) =>
+    if isGhost sticky h c then (st, "bad no-copy")
+    else
+      let guarded : Bool := genDropGuarded && toks.head? == some "drop" && !sticky.contains ((h.drop 1).toNat?.getD 0, (c.drop 1).toNat?.getD 0) &&
+        (match (h.drop 1).toNat?, (c.drop 1).toNat? with
+         | some a, some b =>
+           match s.handles[a]? with
+           | some hd => hd.copies.contains b && (hd.copies.erase b).isEmpty && (hd.childFlag || decide (hd.borrowCount > 0))
+           | none => false
+         | _, _ => false)
+      let (st', o) := lendLineS0 pol st toks
+      if guarded then ((st'.1, ((h.drop 1).toNat?.getD 0 + ghostMark, (c.drop 1).toNat?.getD 0) :: st'.2), o) else (st', o)
+  | none => lendLineS0 pol st toks
 
 def processLine (pol : Policy) (st : LState × Sticky) (l : String) : (LState × Sticky) × Option String :=
   let s := st.1
@@ -473,6 +596,7 @@ def processLine (pol : Policy) (st : LState × Sticky) (l : String) : (LState ×
       match rest with
       | shape :: args => (st, some (callLine shape args))
       | _ => (st, some "bad parse")
+    | "mkstruct" => (st, some (structLine rest))
     | _ => let (st', o) := lendLineS pol st toks; (st', some o)
 
 
@@ -487,6 +611,10 @@ def pick (rng : UInt64) (n : Nat) : Nat × UInt64 :=
 def liveCopies (s : LState) : List (Nat × Nat) :=
   (s.handles.zipIdx.flatMap fun (h, i) => h.copies.map fun c => (i, c))
 
+/-- the copies the script can still name -/
+def liveCopiesS (st : LState × List (Nat × Nat)) : List (Nat × Nat) :=
+  (liveCopies st.1).filter (fun hc => !st.2.contains (hc.1 + 1000000, hc.2))
+
 def genScript (seed : UInt64) (len : Nat) : List String × UInt64 := Id.run do
   let mut rng := seed
   let mut st : LState × Sticky := ({}, [])
@@ -500,7 +628,7 @@ def genScript (seed : UInt64) (len : Nat) : List String × UInt64 := Id.run do
   st := emit st first; out := first :: out
   for _ in List.range len do
     let s := st.1
-    let live := liveCopies s
+    let live := liveCopiesS st
     let (r, rng1) := pick rng 100
     rng := rng1
     let (j, rng2) := pick rng live.length
@@ -522,13 +650,13 @@ def genScript (seed : UInt64) (len : Nat) : List String × UInt64 := Id.run do
   -- return from every call, then use everything that was stashed, also from inside a later call
   for _ in List.range st.1.frames.length do
     st := emit st "end"; out := "end" :: out
-  for (h, c) in (liveCopies st.1).take 12 do
+  for (h, c) in (liveCopiesS st).take 12 do
     let (z, rng4) := pick rng 3
     rng := rng4
     let l := match z with | 0 => s!"set h{h} c{c} 7" | 1 => s!"getro h{h} c{c}" | _ => s!"get h{h} c{c}"
     st := emit st l; out := l :: out
   st := emit st "lend rw"; out := "lend rw" :: out
-  for (h, c) in (liveCopies st.1).take 6 do
+  for (h, c) in (liveCopiesS st).take 6 do
     let l := s!"get h{h} c{c}"
     st := emit st l; out := l :: out
   out := "end" :: out
